@@ -399,6 +399,42 @@ theorem C12_records_are_the_calls_all_modes (macFn : Tsig → List UInt8 → Lis
   obtain ⟨m, mac, hf⟩ := finish_ok macFn hmac out.1.w hI
   exact ⟨m, mac, hf, fun hsz => finish_decodes_content macFn out.1.w given _ hI hL m mac hf hsz⟩
 
+/-- the same with the expanded RDATA (`RMatchX` = `RMatch` and `RdMatch`): for every record of a
+    16-bit type whose given RDATA is well formed for its type (`RdShape`: exactly the names and
+    fixed octets of the RFC 1035 layout), the RDATA the independent message decoder reports — names
+    of NS, MD, MF, CNAME, SOA, MB, MG, MR, PTR, MINFO, MX expanded — is the RDATA given with those
+    names written out (`RdExpands`): equal up to ASCII case, octet for octet for records written
+    outside `Standard` mode (`rdExpands_lower`), all other octets as given; `rdOk = true` -/
+theorem C12_expanded_rdata_is_the_given_rdata (macFn : Tsig → List UInt8 → List UInt8) (hmac : MacLenOK macFn)
+    (buf : Bytes) (limit : Nat) (s0 : State) (hnew : Writer.new buf limit = .ok s0) (mode : CMode)
+    (ops : List Op) (hr : Respects { w := { s0 with mode := mode } } ops) :
+    let out := run { w := { s0 with mode := mode } } ops
+    let given := bodyRun {} ops out.2
+    ∃ m mac, finish out.1.w macFn = .ok (m, mac) ∧ (m.size ≤ 65535 →
+      ∃ (d : Spec.DMsg) (qs : List QItC) (ian ins iar : List RItC), Spec.specDecodeMsg m = some d ∧
+        qs.map (·.q) = given.qs ∧ ian.map (·.r) = given.an ∧ ins.map (·.r) = given.ns ∧
+        iar.map (·.r) = given.ar ++ optRecs' out.1.w.edns ++ tsigRecs out.1.w.tsig mac ∧
+        All2 QMatch qs d.questions ∧ All2 RMatchX ian d.an ∧ All2 RMatchX ins d.ns ∧ All2 RMatchX iar d.ar ∧
+        (∀ it ∈ qs, it.m = mode ∨ Op.setMode it.m ∈ ops) ∧
+        ∀ it ∈ ian ++ ins ++ iar, it.m = mode ∨ Op.setMode it.m ∈ ops) := by
+  intro out given
+  have hI0 : I { s0 with mode := mode } := (safe_setMode mode s0 (new_i buf limit s0 hnew)).2
+  have hL0 : CLay (fun m => m = mode ∨ Op.setMode m ∈ ops) { s0 with mode := mode } {} {} :=
+    clay_new buf limit s0 hnew mode (Or.inl rfl)
+  have hI := (run_I { w := { s0 with mode := mode } } ops hI0 hr).2
+  have hL := clay_run { w := { s0 with mode := mode } } ops {} {} hI0 hL0 hr (fun m hm => Or.inr hm)
+  obtain ⟨m, mac, hf⟩ := finish_ok macFn hmac out.1.w hI
+  exact ⟨m, mac, hf, fun hsz => finish_decodes_rdata macFn out.1.w given _ hI hL m mac hf hsz⟩
+
+/-- non-vacuity of `RdShape` / `RdExpands`: a CNAME RDATA `b.a.` is well formed, and the expansion
+    relation holds between it and itself -/
+example : RdShape 5 [1, 98, 1, 97, 0] ∧ RdExpands True 5 [1, 98, 1, 97, 0] [1, 98, 1, 97, 0] := by
+  refine ⟨?_, ?_⟩
+  · unfold RdShape; simp only [Nat.reduceEqDiff, or_true, true_or, if_true]
+    exact ⟨⟨[[98], [97]]⟩, by decide⟩
+  · unfold RdExpands; simp only [Nat.reduceEqDiff, or_true, true_or, if_true]
+    exact ⟨⟨[[98], [97]]⟩, _, by decide, rfl, by decide, rfl, fun _ => by decide⟩
+
 /-! ### the RDATA of a record reads back, names inside it decompressed (every mode)
 
   After a successful `add_rr` (message of at most 65535 octets so far): the record starts at the old
